@@ -87,15 +87,41 @@ TABLE = [
     ('R11', 'std::cmp::min -> vmin', re.compile(r'\bstd::cmp::min\('), 'vmin('),
     ('R11', 'std::mem::replace -> vreplace', re.compile(r'\bstd::mem::replace\('), 'vreplace('),
     ('R11', 'std::mem::take -> vtake', re.compile(r'\bstd::mem::take\('), 'vtake('),
+    ('R4', 'enum header <R: Read> -> <R: VStream>', re.compile(r'<R: Read>'), '<R: VStream>'),
+    ('R4', 'brotli::Decompressor<Take<R>> -> VDecompressor<R>', re.compile(r'brotli::Decompressor<Take<(\w+)>>'), r'VDecompressor<\1>'),
     ('R4', 'Cursor::new -> VCursor::new', re.compile(r'(?<![A-Za-z_:])Cursor::new\('), 'VCursor::new('),
     ('R8', '(&mut X).take(N).read_to_end(&mut V) -> vio_read_to_end_take',
      re.compile(r'\(&mut ([\w.]+)\)\s*\.take\(([^;]*?)\)\s*\.read_to_end\(&mut (\w+)\)'), r'vio_read_to_end_take(&mut \1, \2, &mut \3)'),
     ('R8', 'io::copy(&mut (&mut X).take(N), &mut io::sink()) -> vio_skip_take',
-     re.compile(r'io::copy\(\s*&mut \(&mut ([\w.]+)\)\.take\(([^;]*?)\),\s*&mut io::sink\(\),?\s*\)'), r'vio_skip_take(&mut \1, \2)'),
+     re.compile(r'io::copy\(\s*&mut \(&mut (?!decompressor)([\w.]+)\)\.take\(([^;]*?)\),\s*&mut io::sink\(\),?\s*\)'), r'vio_skip_take(&mut \1, \2)'),
     ('R8', 'BufReader::new(buf); io::copy(&mut src.take(n), &mut vec) -> vio_copy_slice_take',
      re.compile(r'let (\w+) = BufReader::new\((\w+)\);\s*io::copy\(&mut \1\.take\((\w+)\), &mut (\w+)\)'), r'vio_copy_slice_take(\2, \3, &mut \4)'),
     ('R8', 'X.write_all(B) -> vio_write_all(&mut X, B)', re.compile(r'\b(self\.inner|inner|dest|self\.dest)\.write_all\(([^;]*?)\)(\?|;|\s*$)', re.M), r'vio_write_all(&mut \1, \2)\3'),
     ('R11', 'cursor.get_mut().clear() -> cursor.vclear()', re.compile(r'\.get_mut\(\)\s*\.clear\(\)'), '.vclear()'),
+    ('R10', 'X.read_u32::<LittleEndian>() -> vio_read_u32_le(X)', re.compile(r'\b(\w+)\.read_u32::<LittleEndian>\(\)'), r'vio_read_u32_le(\1)'),
+    ('R10', 'X.read_u64::<LittleEndian>() -> vio_read_u64_le(X)', re.compile(r'\b(\w+)\.read_u64::<LittleEndian>\(\)'), r'vio_read_u64_le(\1)'),
+    ('R10', 'X.read_u8() -> vio_read_u8(X)', re.compile(r'\b(\w+)\.read_u8\(\)'), r'vio_read_u8(\1)'),
+    ('R8', 'X.read_exact(B) -> vio_read_exact(X, B)', re.compile(r'\b(\w+)\.read_exact\(([^;]*?)\)\?'), r'vio_read_exact(\1, \2)?'),
+    ('R12', 'bincode::options()[.with_limit(L)][.with_fixint_encoding()].deserialize_from(X.take(N)) -> vbincode_deserialize_take',
+     re.compile(r'bincode::options\(\)(?:\s*\.with_limit\((\w+)\))?(\s*\.with_fixint_encoding\(\))?\s*\.deserialize_from\(\s*(&mut )?(\w+)\.take\((\w+)\)\s*\)'),
+     lambda m: 'vbincode_deserialize_take(%s%s, %s, %s, %s)' % ('&mut ' if m.group(3) else '', m.group(4), ('Some(%s)' % m.group(1)) if m.group(1) else 'None', 'true' if m.group(2) else 'false', m.group(5))),
+    ('R12', 'bincode::options()[...].serialize_into(W, V) -> vbincode_serialize_into',
+     re.compile(r'bincode::options\(\)(?:\s*\.with_limit\((\w+)\))?(\s*\.with_fixint_encoding\(\))?\s*\.serialize_into\(\s*([^,]+?),\s*([^)]+?)\s*\)'),
+     lambda m: 'vbincode_serialize_into(%s, %s, %s, %s)' % (m.group(3), ('Some(%s)' % m.group(1)) if m.group(1) else 'None', 'true' if m.group(2) else 'false', m.group(4))),
+    ('R12', 'bincode::serialized_size(V) -> vbincode_serialized_size', re.compile(r'bincode::serialized_size\('), 'vbincode_serialized_size('),
+    ('R4', 'brotli::Decompressor::new(X.take(N), B) -> VDecompressor::new_take(X, N, B)',
+     re.compile(r'brotli::Decompressor::new\((?:\s|//[^\n]*\n)*(\w+)\.take\(([^,]*?)\),\s*(\w+),?\s*\)'), r'VDecompressor::new_take(\1, \2, \3)'),
+    ('R4', 'decompressor.into_inner().into_inner() -> .into_inner2()', re.compile(r'\.into_inner\(\)\.into_inner\(\)'), '.into_inner2()'),
+    ('R8', 'io::copy(&mut (&mut D).take(N), &mut io::sink()) -> D.skip_take(N)',
+     re.compile(r'io::copy\(&mut \(&mut (decompressor)\)\.take\((\w+)\), &mut io::sink\(\)\)'), r'\1.skip_take(\2)'),
+    ('R9', 'V.iter().take(N).map(|s| u64::from(*s)).sum() -> vsum_prefix_u32(V, N)',
+     re.compile(r'(\b[\w.]+)\s*\.iter\(\)\s*\.take\((.*?)\)\s*\.map\(\|(\w+)\| u64::from\(\*\3\)\)\s*\.sum\(\)', re.S), r'vsum_prefix_u32(\1, \2)'),
+    ('R9', 'V.iter().map(|s| u64::from(*s)).sum() -> vsum_all_u32(&V)',
+     re.compile(r'(\b[\w.]+)\.iter\(\)\.map\(\|(\w+)\| u64::from\(\*\2\)\)\.sum\(\)'), r'vsum_all_u32(&\1)'),
+    ('R14', 'X.is_none_or(|v| E) -> match X { None => true, Some(v) => E }  (definition of the std method)',
+     re.compile(r'(self\.sizes_info\s*\.as_ref\(\))\s*\.is_none_or\(\|(\w+)\| (.*?)\)\n'), r'(match \1 { None => true, Some(\2) => \3 })\n'),
+    ('R14', 'X.is_some_and(F) -> match X { Some(v) => F(v), None => false }  (definition of the std method)',
+     re.compile(r'(self\.sizes_info\.as_ref\(\))\.is_some_and\(([\w:]+)\)'), r'(match \1 { Some(v) => \2(v), None => false })'),
     ('R5', 'i64::try_from(u64) -> vconv', re.compile(r'\bi64::try_from\('), 'vconv_i64_try_from_u64('),
 ]
 
